@@ -404,6 +404,10 @@ def judgeLine (j : J) (op : String) (outs : List String) : J × List String :=
         ({ j with tainted := tbl :: j.tainted, prefixes := j.prefixes ++ pre }, [])
   | ["select", table] => judgeSelect j ((bytesOfHex table).getD []) outs
   | ["roots"] => judgeRoots j outs
+  | ["capcheck", cap] =>
+    match outs.find? (·.startsWith "differs") with
+    | some d => (j, [vio j "db:cache-size-dependent" s!"capacity={cap} {(d.take 500).toString}"])
+    | none => (j, [])
   | "image" :: _ => judgeImage j op outs
   | "fimage" :: _ :: kind :: alloc :: _ =>
     -- C04: a crash inside a page flush; every acknowledged statement must survive
